@@ -215,9 +215,23 @@ def run_enum_batch(case):
             for x, y in zip(xs, ys):
                 out = ex.explain_one(x, y, verbose=False)
             return dict(out)
-        ex = BatchSage(model, names, loss_d, n_inner_samples=n_inner)
-        for x, y in zip(xs, ys):
-            ex.update_storage(x, y)
+        variant = case.get('original_variant')
+        if how == 'original' and variant == 'product_imputer':
+            # original mode must draw ONE row of the data set for all absent features, whatever imputer the explainer was built with
+            from ixai.storage import BatchStorage
+            from ixai.imputer import MarginalImputer
+            storage = BatchStorage(store_targets=True)
+            ex = BatchSage(model, names, loss_d, n_inner_samples=n_inner, storage=storage,
+                           imputer=MarginalImputer(model, 'product', storage))
+        else:
+            ex = BatchSage(model, names, loss_d, n_inner_samples=n_inner)
+        if how == 'original' and variant == 'other_storage_content':
+            # explain_many_original(x_data, y_data) called directly: the background is the DATA SET, not what the storage happens to hold
+            for x, y in zip(xs, ys):
+                ex.update_storage({k: v + 10 for k, v in x.items()}, y)
+        else:
+            for x, y in zip(xs, ys):
+                ex.update_storage(x, y)
         if how == 'many':
             return dict(ex.explain_many(list(xs), list(ys), verbose=False))
         return dict(ex.explain_many_original(list(xs), list(ys), verbose=False))
@@ -462,11 +476,13 @@ def inc_cases(draw):
            'imputer': {'kind': 'marginal', 'strategy': strategy}, 'model': draw(cfgs.model_st(d)), 'loss': draw(cfgs.loss_st()),
            'lbib': False, 'seeds': [0, 0], 'mode': 'exact', 'stream': []}
     variants = {}
-    kind = draw(st.sampled_from(['plain', 'plain', 'positional', 'opt']))
+    kind = draw(st.sampled_from(['plain', 'plain', 'positional', 'opt', 'memo']))
     if kind == 'positional':
         # an order-sensitive model and observation dicts whose key order varies
         cfg['model']['positional'] = True
         variants = {'row_perms': [draw(st.sampled_from([1, 2, 3, 0])) for _ in rows], 'x_perm': draw(st.sampled_from([0, 1, 2]))}
+    elif kind == 'memo':
+        cfg['model']['memo'] = True      # equal inputs get the same prediction object back
     elif kind == 'opt':
         # an optional unexplained key that only some observations carry
         cfg['model']['opt'] = [draw(st.integers(1, 3))]
@@ -486,7 +502,8 @@ def batch_cases(draw, max_leaves=1100):
     d, n, n_inner = draw(st.sampled_from(shapes))
     rows = draw(cfgs.stream_st(d, n, n, per_call=False))
     return {'how': how, 'names': draw(cfgs.names_st(d)), 'model': draw(cfgs.model_st(d)), 'loss': draw(cfgs.loss_st()),
-            'n_inner': n_inner, 'rows': rows}
+            'n_inner': n_inner, 'rows': rows,
+            'original_variant': draw(st.sampled_from([None, 'product_imputer', 'other_storage_content'])) if how == 'original' else None}
 
 
 SUBS = {'enum_incremental': run_enum_incremental, 'enum_batch': run_enum_batch}
